@@ -415,6 +415,15 @@ func isStrConst(t *Term) bool {
 	return t.Op == OConst && t.C != nil && t.C.Kind() == constant.String
 }
 
+func isLenTerm(t *Term) bool { return t.Op == OBuiltin && t.Str == "len" && len(t.Args) == 1 }
+
+func intVal(t *Term) (int64, bool) {
+	if !isIntConst(t) {
+		return 0, false
+	}
+	return constant.Int64Val(t.C)
+}
+
 func isIntConst(t *Term) bool {
 	return t.Op == OConst && t.C != nil && t.C.Kind() == constant.Int
 }
@@ -465,6 +474,27 @@ func Bin(op string, a, b *Term) *Term {
 					}
 					return &Term{Op: OConst, C: constant.MakeBool(res), Typ: types.Typ[types.Bool]}
 				}
+			}
+		}
+	}
+	// a length is never negative: 0 < len(x) is 0 != len(x), len(x) <= 0 is 0 == len(x), and the same against 1
+	if (op == "<" || op == "<=" || op == ">" || op == ">=") && (isLenTerm(a) || isLenTerm(b)) {
+		l, k, lenLeft := a, b, true
+		if !isLenTerm(a) {
+			l, k, lenLeft = b, a, false
+		}
+		if v, ok := intVal(k); ok {
+			// normalise to  len REL v
+			rel := op
+			if !lenLeft {
+				rel = map[string]string{"<": ">", "<=": ">=", ">": "<", ">=": "<="}[op]
+			}
+			zero := Const(constant.MakeInt64(0), types.Typ[types.Int])
+			switch {
+			case (rel == ">" && v == 0) || (rel == ">=" && v == 1):
+				return Bin("!=", zero, l)
+			case (rel == "<=" && v == 0) || (rel == "<" && v == 1):
+				return Bin("==", zero, l)
 			}
 		}
 	}
